@@ -36,22 +36,26 @@ def exHist : List Call :=
    .substitute "dup".toList 1 exTree, .substitute "t1".toList 1 exTree]
 
 /-- a decidable view of a result: the error, or the (number, word, tag) of every token -/
-def view : Except Err Tree → Except Err (List (Nat × Str × Str))
-  | .error e => .error e
-  | .ok t => .ok (t.terminals.map fun l => (l.num, l.fields.word.getD [], l.fields.label))
+def view : Except Err Tree → Err ⊕ List (Nat × Str × Str)
+  | .error e => .inl e
+  | .ok t => .inr (t.terminals.map fun l => (l.num, l.fields.word.getD [], l.fields.label))
+
+/-- `Except` as a sum (which has decidable equality) -/
+def toSum {α} : Except Err α → Err ⊕ α
+  | .error e => .inl e
+  | .ok a => .inr a
 
 /-! ### the cache protocol -/
 
 theorem loadTable_result (needPos : Bool) (fs : Str → Option Str) (st : Loaded) (fn : Str) (h : CacheOK needPos fs st) :
     (loadTable needPos fs st fn).1 = (loadTable needPos fs .absent fn).1 ∧ CacheOK needPos fs (loadTable needPos fs st fn).2 := by
   have hreload : CacheOK needPos fs (loadTable.reload needPos fs fn).2 := by
-    unfold loadTable.reload
     cases h1 : fs fn with
-    | none => trivial
+    | none => simp only [loadTable.reload, h1]; trivial
     | some c =>
       cases h2 : parseTermFile needPos c with
-      | error e => trivial
-      | ok t => exact ⟨c, h1, h2⟩
+      | error e => simp only [loadTable.reload, h1, h2]; trivial
+      | ok t => simp only [loadTable.reload, h1, h2]; exact ⟨c, h1, h2⟩
   cases st with
   | absent => exact ⟨rfl, hreload⟩
   | broken f => exact absurd h id
@@ -67,12 +71,12 @@ theorem loadTable_result (needPos : Bool) (fs : Str → Option Str) (st : Loaded
 /-- a state whose substitute cache holds `t1`: loading `t1` again, or another file, gives what a fresh process gives -/
 example : CacheOK false exFs (loadTable false exFs .absent "t1".toList).2 :=
   (loadTable_result false exFs .absent "t1".toList trivial).2
-example : (loadTable false exFs (loadTable false exFs .absent "t1".toList).2 "t1".toList).1 =
-      .ok [(1, [(2, "dog".toList, some "N".toList), (1, "the".toList, some "D".toList)]), (2, [(1, "it".toList, none)])] ∧
-    (loadTable false exFs (loadTable false exFs .absent "t1".toList).2 "short".toList).1 =
-      .ok [(1, [(1, "a".toList, none)])] ∧
-    (loadTable true exFs .absent "short".toList).1 = .error .indexError ∧
-    (loadTable false exFs .absent "nofile".toList).1 = .error .other := by decide
+example : toSum (loadTable false exFs (loadTable false exFs .absent "t1".toList).2 "t1".toList).1 =
+      .inr [(1, [(2, "dog".toList, some "N".toList), (1, "the".toList, some "D".toList)]), (2, [(1, "it".toList, none)])] ∧
+    toSum (loadTable false exFs (loadTable false exFs .absent "t1".toList).2 "short".toList).1 =
+      .inr [(1, [(1, "a".toList, none)])] ∧
+    toSum (loadTable true exFs .absent "short".toList).1 = .inl .indexError ∧
+    toSum (loadTable false exFs .absent "nofile".toList).1 = .inl .other := by decide
 
 /-- one call: same result from any reachable state as from the initial state, and the state stays consistent -/
 theorem call_history_independent (fs : Str → Option Str) (st : ProcState) (c : Call) (h : StateOK fs st) :
@@ -116,16 +120,16 @@ example : runHistory exFs {} exHist = exHist.map fun c => (c.run exFs {}).1 := h
 
 /-- the example history, evaluated: both `dup` calls raise `ValueError`, the last call repeats the first result -/
 example : (runHistory exFs {} exHist).map view =
-    [.ok [(1, "the".toList, "D".toList), (2, "dog".toList, "N".toList)],
-     .ok [(1, "a".toList, "A".toList), (2, "b".toList, "B".toList), (3, "now".toList, "ADV".toList)],
-     .error .valueError, .error .valueError,
-     .ok [(1, "the".toList, "D".toList), (2, "dog".toList, "N".toList)]] := by decide
+    [.inr [(1, "the".toList, "D".toList), (2, "dog".toList, "N".toList)],
+     .inr [(1, "a".toList, "A".toList), (2, "b".toList, "B".toList), (3, "now".toList, "ADV".toList)],
+     .inl .valueError, .inl .valueError,
+     .inr [(1, "the".toList, "D".toList), (2, "dog".toList, "N".toList)]] := by decide
 /-- and call by call in a fresh process -/
 example : (exHist.map fun c => view (c.run exFs {}).1) =
-    [.ok [(1, "the".toList, "D".toList), (2, "dog".toList, "N".toList)],
-     .ok [(1, "a".toList, "A".toList), (2, "b".toList, "B".toList), (3, "now".toList, "ADV".toList)],
-     .error .valueError, .error .valueError,
-     .ok [(1, "the".toList, "D".toList), (2, "dog".toList, "N".toList)]] := by decide
+    [.inr [(1, "the".toList, "D".toList), (2, "dog".toList, "N".toList)],
+     .inr [(1, "a".toList, "A".toList), (2, "b".toList, "B".toList), (3, "now".toList, "ADV".toList)],
+     .inl .valueError, .inl .valueError,
+     .inr [(1, "the".toList, "D".toList), (2, "dog".toList, "N".toList)]] := by decide
 
 /-- a failed load leaves no trace (the repaired behaviour): a retry gives the same error -/
 theorem failed_load_retry (needPos : Bool) (fs : Str → Option Str) (st : Loaded) (fn : Str) (e : Err)
@@ -136,21 +140,20 @@ theorem failed_load_retry (needPos : Bool) (fs : Str → Option Str) (st : Loade
   rw [h3, ← h1, h]
 
 /-- the failing load of `dup` from a state that has `t1` cached -/
-example : (loadTable false exFs (.ok "t1".toList []) "dup".toList).1 = .error .valueError ∧
-    (loadTable false exFs (loadTable false exFs (.ok "t1".toList []) "dup".toList).2 "dup".toList).1 =
-      .error .valueError := by decide
+example : toSum (loadTable false exFs (.ok "t1".toList []) "dup".toList).1 = .inl .valueError ∧
+    toSum (loadTable false exFs (loadTable false exFs (.ok "t1".toList []) "dup".toList).2 "dup".toList).1 =
+      .inl .valueError := by decide
 
 /-- a failed load leaves the cache empty -/
 theorem failed_load_state (needPos : Bool) (fs : Str → Option Str) (st : Loaded) (fn : Str) (e : Err)
     (h : (loadTable needPos fs st fn).1 = .error e) : (loadTable needPos fs st fn).2 = .absent := by
   have hreload : (loadTable.reload needPos fs fn).1 = .error e → (loadTable.reload needPos fs fn).2 = .absent := by
-    unfold loadTable.reload
-    cases fs fn with
-    | none => intro _; rfl
+    cases h1 : fs fn with
+    | none => simp only [loadTable.reload, h1]; intro _; trivial
     | some c =>
-      cases parseTermFile needPos c with
-      | error e => intro _; rfl
-      | ok t => intro h; cases h
+      cases h2 : parseTermFile needPos c with
+      | error e => simp only [loadTable.reload, h1, h2]; intro _; trivial
+      | ok t => simp only [loadTable.reload, h1, h2]; intro h; cases h
   cases st with
   | absent => exact hreload h
   | broken f => exact hreload h
@@ -243,7 +246,7 @@ theorem exportLoop_append (o : InOpts) (a b : List Str) (tc : Nat) (acc : List (
     simp only [Option.isSome_none, hc] at h1 h2 h4
     have h1' : s.1 = none := by cases h : s.1 <;> simp_all
     simp only [h1', h2, List.reverse_reverse, sentences, List.length_reverse, h3, List.length_append, h4]
-    exact ⟨rfl, by omega⟩
+    exact ⟨trivial, by omega⟩
 
 /-- the same without assuming that the prefix reads successfully, and with the result spelled out:
     reading `a ++ b` = reading `a`, reading `b` with the tree counter advanced, concatenating -/
@@ -312,7 +315,8 @@ theorem readExport_newline (o : InOpts) (a : Str) (hcomplete : Complete (lines a
   cases exportLoop o (splitOnChar '\n' a) none 1 [] with
   | error e => rfl
   | ok ra =>
-    have : exportLoop o [[]] none (1 + sentences (splitOnChar '\n' a)) [] = .ok [] := by decide
+    have : exportLoop o [[]] none (1 + sentences (splitOnChar '\n' a)) [] = .ok [] := by
+      simp [exportLoop]
     simp [this, Except.map]
 
 theorem complete_newline (a : Str) (h : Complete (lines a)) : Complete (lines (a ++ ['\n'])) := by
@@ -351,17 +355,17 @@ def exA : Str := "#BOS 7\nthe\t--\tD\t--\tHD\t500\ndog\t--\tN\t--\tHD\t500\n#500
 def exB : Str := "#BOS 3\nnow\t--\tADV\t--\tHD\t0\n#EOS 3\n".toList
 
 /-- ids and number of tokens of the trees read -/
-def ids : Except Err (List (Nat × Tree)) → Except Err (List (Nat × Nat))
-  | .error e => .error e
-  | .ok r => .ok (r.map fun p => (p.1, p.2.leafNums.length))
+def ids : Except Err (List (Nat × Tree)) → Err ⊕ List (Nat × Nat)
+  | .error e => .inl e
+  | .ok r => .inr (r.map fun p => (p.1, p.2.leafNums.length))
 
 example : Complete (lines exA) ∧ sentences (lines exA) = 2 := by decide
 /-- an unfinished sentence is not complete -/
 example : ¬ Complete (lines "#BOS 1\nit\t--\tN\t--\tHD\t0\n".toList) := by decide
-example : ids (readExport {} exA) = .ok [(7, 2), (9, 1)] ∧ ids (readExport {} exB) = .ok [(3, 1)] ∧
-    ids (readExport {} (exA ++ '\n' :: exB)) = .ok [(7, 2), (9, 1), (3, 1)] := by decide
-example : ids (readExport { continuous := true } exA) = .ok [(1, 2), (2, 1)] ∧
-    ids (readExport { continuous := true } exB) = .ok [(1, 1)] ∧
-    ids (readExport { continuous := true } (exA ++ '\n' :: exB)) = .ok [(1, 2), (2, 1), (3, 1)] := by decide
+example : ids (readExport {} exA) = .inr [(7, 2), (9, 1)] ∧ ids (readExport {} exB) = .inr [(3, 1)] ∧
+    ids (readExport {} (exA ++ '\n' :: exB)) = .inr [(7, 2), (9, 1), (3, 1)] := by decide
+example : ids (readExport { continuous := true } exA) = .inr [(1, 2), (2, 1)] ∧
+    ids (readExport { continuous := true } exB) = .inr [(1, 1)] ∧
+    ids (readExport { continuous := true } (exA ++ '\n' :: exB)) = .inr [(1, 2), (2, 1), (3, 1)] := by decide
 
 end TT.Props.C18
